@@ -289,7 +289,7 @@ func (fr *frame) doAlloc(b *ssa.BasicBlock, st *state, x *ssa.Alloc) {
 		tyid = vc.w.typeID(el)
 	}
 	r := fr.newObj(st, x, tyid)
-	fr.objTerm[x] = baseObj{fmt.Sprintf("(oid %s)", r), el}
+	fr.objTerm[x] = baseObj{term: fmt.Sprintf("(oid %s)", r), typ: el}
 	// allocation does not change the heap arrays: the cells of the fresh object are assumed to hold zero values
 	if at, ok := el.Underlying().(*types.Array); ok {
 		if at.Len() <= 16 {
@@ -428,8 +428,13 @@ func (fr *frame) doStore(b *ssa.BasicBlock, st *state, x *ssa.Store) {
 	if kind == rFresh || kind == rValue {
 		_, root = fr.vc.ma.valueRoot(x.Addr, map[*ssa.BasicBlock]bool{}, 0) // resolve to the allocation itself
 	}
-	if root != nil && isLocalAllocation(root) && fr.vc.ma.escape(fr.fn).safeStore(x, root) {
-		objT = fr.objTerm[root]
+	if root != nil && isLocalAllocation(root) {
+		if o, ok := fr.objTerm[root]; ok {
+			objT = o
+			if !fr.vc.ma.escape(fr.fn).safeStore(x, root) {
+				objT.escaped = true // its address was handed out before: the lineage lemma then needs type unreachability
+			}
+		}
 	}
 	var before map[string]string
 	var touched []string
@@ -452,9 +457,12 @@ func (fr *frame) doStore(b *ssa.BasicBlock, st *state, x *ssa.Store) {
 		}
 		if b, ok := st.base[k]; ok {
 			found := false
-			for _, o := range b.objs {
+			for i, o := range b.objs {
 				if o.term == objT.term {
 					found = true
+					if objT.escaped {
+						b.objs[i].escaped = true
+					}
 				}
 			}
 			if !found {
@@ -655,7 +663,7 @@ func (fr *frame) doMakeSlice(b *ssa.BasicBlock, st *state, x *ssa.MakeSlice) {
 	st.alloc = na
 	el := x.Type().Underlying().(*types.Slice).Elem()
 	res := fr.define(x, fmt.Sprintf("(mk-slice %s 0 %s)", rn, ln))
-	fr.objTerm[x] = baseObj{fmt.Sprintf("(oid %s)", rn), el}
+	fr.objTerm[x] = baseObj{term: fmt.Sprintf("(oid %s)", rn), typ: el}
 	fr.vc.assumeG(fmt.Sprintf("(= (tyof %s) (- 2000))", rn))
 	fr.zeroRegion(st, el, res)
 }
@@ -678,7 +686,7 @@ func (fr *frame) doAppend(b *ssa.BasicBlock, st *state, x ssa.Value, args []ssa.
 		return
 	}
 	res := fr.define(x, fmt.Sprintf("(mk-slice %s 0 (+ (slen %s) (slen %s)))", rn, s, t))
-	fr.objTerm[x] = baseObj{fmt.Sprintf("(oid %s)", rn), el}
+	fr.objTerm[x] = baseObj{term: fmt.Sprintf("(oid %s)", rn), typ: el}
 	fr.vc.assumeG(fmt.Sprintf("(= (tyof %s) (- 2000))", rn))
 	for _, lf := range c.leaves(el) {
 		p1 := addrPath(fmt.Sprintf("(selem %s ap!i)", res), lf.fids)
